@@ -62,7 +62,8 @@ type Profile struct {
 	// off-state (random ids, strangers, malformed values).
 	InvalidPct int
 	// Genesis knobs
-	PrefixIDs           bool // pre-made classes C10 / C100 etc.
+	PrefixIDs           bool // pre-made classes C10 / C100 etc. in two thirds of the configurations
+	PrefixIDsPct        int  // otherwise: percentage of configurations with them
 	AllowZeroFeeGenesis bool // genesis may carry a zero class/basket fee (C18 finding F10)
 	AllowEmptyDenoms    bool
 	GenesisFeeRates     []string
